@@ -12,6 +12,8 @@ pub enum Hint {
     Exact,
     Inexact,
     Unbounded,
+    /// claims `(k - produced, Some(k - produced))` whatever the script holds (a dishonest exact hint)
+    Fixed(usize),
 }
 
 #[derive(Clone, Debug)]
@@ -176,6 +178,10 @@ fn parse_src(toks: &[&str], ln: usize) -> Result<(Src, usize), String> {
             "exact" => Ok(Hint::Exact),
             "inexact" => Ok(Hint::Inexact),
             "unbounded" => Ok(Hint::Unbounded),
+            h if h.starts_with("fixed") => h[5..]
+                .parse::<usize>()
+                .map(Hint::Fixed)
+                .map_err(|_| format!("line {ln}: bad hint '{h}'")),
             h => Err(format!("line {ln}: unknown hint '{h}'")),
         }
     };
